@@ -9,6 +9,7 @@ VERIF = os.path.dirname(os.path.dirname(os.path.abspath(__file__)))
 
 
 def main():
+    CHECKS = registry.collect()
     ids = []
     with open(os.path.join(VERIF, "properties.jsonl")) as fh:
         for line in fh:
@@ -16,9 +17,9 @@ def main():
                 ids.append(json.loads(line)["id"])
     checks = []
     for pid in ids:
-        if pid not in registry.CHECKS:
+        if pid not in CHECKS:
             continue
-        cat, tech, text, note, ref = registry.CHECKS[pid]
+        cat, tech, text, note, ref = CHECKS[pid]
         checks.append({
             "property_id": pid,
             "quick_cmd": "./check %s --tier quick" % pid,
@@ -32,7 +33,7 @@ def main():
         })
     na = []
     for pid in ids:
-        if pid not in registry.CHECKS:
+        if pid not in CHECKS:
             na.append({"property_id": pid, "reason": registry.NOT_APPLICABLE.get(pid, registry.NOT_YET)})
     man = {
         "version": 1,
